@@ -1,4 +1,5 @@
 pub mod c12;
+pub mod dynamic;
 pub mod satcalls;
 pub mod statq;
 
@@ -11,6 +12,8 @@ pub fn all() -> Vec<Box<dyn Property>> {
         Box::new(statq::StatQ(statq::Mode::C03)),
         Box::new(statq::StatQ(statq::Mode::C04)),
         Box::new(statq::StatQ(statq::Mode::C07)),
+        Box::new(dynamic::Dyn { faults: false }),
+        Box::new(dynamic::Dyn { faults: true }),
         Box::new(c12::C12),
         Box::new(satcalls::C17),
         Box::new(satcalls::C18),
